@@ -136,3 +136,53 @@ func ffTailPAT(r *rand.Rand, n int) (absPAT, bool) {
 	}
 	return absPAT{}, false
 }
+
+// ffTailPMT: the section ends in 0xFF bytes (the body of the last descriptor) and its CRC_32 is one of the corner values.
+func ffTailPMT(r *rand.Rand, p absPMT) (absPMT, bool) {
+	if len(p.Streams) < 1 {
+		return p, false
+	}
+	for try := 0; try < 20; try++ {
+		q := p
+		q.Streams = append([]absStream(nil), p.Streams...)
+		last := &q.Streams[len(q.Streams)-1]
+		last.Descs = append(append([]absDescr(nil), last.Descs...), absDescr{Tag: []int{0x05, 0x0a, 0x52, 0xfe}[r.Intn(4)], Body: []byte{0xff, 0xff, 0xff, 0xff, 0xff, 0xff}[:1+r.Intn(6)]})
+		if len(pmtSection(q)) > 1024 {
+			return p, false
+		}
+		q.Program = r.Intn(65536)
+		if steerPMT(&q, crcTargets[r.Intn(len(crcTargets))]) {
+			return q, true
+		}
+	}
+	return p, false
+}
+
+// steerSig changes the low 32 bits of pts_adjustment and cw_index of s so that the section's CRC_32 is target.
+func steerSig(s *absSig, target uint32) bool {
+	sec := s.section()
+	msg := sec[:len(sec)-4]
+	free := append(bitsOf(5, 32, 0), bitsOf(9, 8, 0)...)
+	if !crcSteer(msg, free, target) {
+		return false
+	}
+	s.PtsAdj = s.PtsAdj&(1<<32) | uint64(msg[5])<<24 | uint64(msg[6])<<16 | uint64(msg[7])<<8 | uint64(msg[8])
+	s.Cw = int(msg[9])
+	return crc32mpeg(s.section()[:len(sec)-4]) == target
+}
+
+// ffTailSig: the section ends in 0xFF bytes (a foreign descriptor's body, or the sub-segment fields of the last
+// segmentation descriptor) and its CRC_32 is one of the corner values.
+func ffTailSig(r *rand.Rand, s *absSig) bool {
+	if len(s.AStuff) > 0 || s.Enc {
+		return false
+	}
+	if r.Intn(2) == 0 {
+		s.Descs = append(s.Descs, absSDesc{Kind: "foreign", Tag: []int{1, 3, 0xff}[r.Intn(3)], Body: []byte{0xff, 0xff, 0xff, 0xff, 0xff, 0xff}[:1+r.Intn(6)]})
+	} else {
+		d := rndSeg(r)
+		d.Cancel, d.Type, d.HasSub, d.SegNum, d.SegExp, d.SubNum, d.SubExp = false, 0x34, true, 0xff, 0xff, 0xff, 0xff
+		s.Descs = append(s.Descs, d)
+	}
+	return steerSig(s, crcTargets[r.Intn(len(crcTargets))])
+}
